@@ -5,6 +5,7 @@ package decoder
 
 import (
 	"context"
+	"strings"
 
 	"github.com/hashicorp/hcl-lang/lang"
 	"github.com/hashicorp/hcl-lang/reference"
@@ -98,6 +99,14 @@ func (ref Reference) CompletionAtPos(ctx context.Context, pos hcl.Pos) []lang.Ca
 	candidates := make([]lang.Candidate, 0)
 	ref.pathCtx.ReferenceTargets.MatchWalk(ctx, ref.cons, prefix, outerBodyRng, editRng, func(target reference.Target) error {
 		address := target.Address(ctx, editRng.Start).String()
+		if !strings.HasPrefix(address, prefix) {
+			// target was matched via its other (absolute or local) address
+			if strings.HasPrefix(target.Addr.String(), prefix) {
+				address = target.Addr.String()
+			} else if strings.HasPrefix(target.LocalAddr.String(), prefix) {
+				address = target.LocalAddr.String()
+			}
+		}
 
 		candidates = append(candidates, lang.Candidate{
 			Label:       address,
